@@ -21,7 +21,7 @@ BUILT = {
          "Seeded search over message sequences x pipe configurations x writer/reader schedules, plus exhaustive split points of short streams inside each 'splits' run and hostile prefixes; oracle = decoded sequence equals encoded sequence / reference frame parser; evidence, not proof",
          "trusts the in-memory pipe to model a reliable ordered byte stream and asynchronous-codec's FramedRead/Write (both real code)", "5/C57"),
 }
-BUILT["C14"] = ("E1", "exploration", "deterministic simulation: real dialer and listener futures as two scheduled units over a fault-injecting in-memory duplex; outcome + payload-equality oracle",
+BUILT["C14"] = ("E1", "exploration", "deterministic simulation: real dialer and listener futures as two scheduled units over a fault-injecting in-memory duplex (one run in three with buffered-writer semantics: bytes move only on flush); outcome + payload-equality oracle",
   "Seeded search over protocol lists x version x payloads x pipe configurations x schedules (plus connection resets in the heavy profile); oracle: both sides agree on the first common protocol or both fail with Failed, optimistic dialer learns failure at first read, payload bytes arrive complete and in order, and the tapped wire equals a hand-written reference encoding",
   "assumes the transport buffers one negotiation flight (>= 40 kB per direction; smaller buffers deadlock multistream-select by design); dialer names valid in the strict scenario", "5/C14")
 BUILT["C15"] = ("E1", "fault_enumeration", "deterministic simulation with hostile-peer fault enumeration: scripted raw peer bytes x chunking schedules against the real listener/dialer; reference encoder/parser as oracle",
@@ -33,7 +33,7 @@ BUILT["C24"] = ("E1", "exploration", "deterministic simulation: real mplex / yam
 BUILT["C25"] = ("E1", "fault_enumeration", "deterministic simulation: real mplex endpoint against a scripted raw peer with a reference codec; every split offset enumerated inside a run, hostile frames enumerated",
   "Outbound: each local operation must appear as the reference frame with the initiator flags; inbound: every frame kind x id magnitudes x sizes under all split offsets must have exactly its effect (role mirrored: receiver-flag frames reach locally opened streams, initiator-flag frames do not); hostile: length 1MiB+1 without payload, type 7, over-long varints must fail at once, 1 MiB exactly must not",
   "reference codec written from the mplex spec; effects observed through the public StreamMuxer/Substream API (no codec hook needed)", "5/C25")
-BUILT["C26"] = ("E1", "exploration", "deterministic simulation: flooding raw peer, schedule-paused local readers, both MaxBufferBehaviours, limits hit while the muxer's own writes are back-pressured; limit invariants after every step",
+BUILT["C26"] = ("E1", "exploration", "deterministic simulation: flooding raw peer, schedule-paused local readers, substreams closed from both sides while frames are buffered, both MaxBufferBehaviours, limits hit while the muxer's own writes are back-pressured; limit invariants after every step",
   "Invariant after every step: substreams handed out and not dropped <= max_substreams whatever the peer sends (incl. repeated Reset/Close); excess Opens answered by Reset; Block: at most max_buffer_len+1 frames taken for a paused reader and no frame lost or reordered after resume; ResetStream: overflowing stream reset and its reads end",
   "frames taken by the real side are measured as bytes consumed from the pipe with one frame delivered per quiescence point", "5/C26")
 BUILT["C16"] = ("E1", "fault_enumeration", "deterministic simulation with adversary fault enumeration: frame-aware man-in-the-middle (every byte flip, truncation, drop, duplicate, cross-session replacement) and a byzantine endpoint running the real handshake with a spliced identity; ground-truth identity oracle",
@@ -157,13 +157,13 @@ BUILT["C42"] = ("E2", "exploration", "deterministic simulation: real kad::Behavi
 BUILT["C43"] = ("E2", "exploration", "same simulation as C42 with ADD_PROVIDER and PUT_VALUE frames carrying arbitrary provider / publisher ids",
   "a provider appears in the store only if it is the sender and not the local node; PUT_VALUE with the local node as publisher leaves the record untouched",
   E2P_NOTE, "5/C43")
-BUILT["C45"] = ("E2", "exploration", "deterministic simulation: 2..3 real Swarms with #[derive(NetworkBehaviour)]{request_response, gate}; seeded requests with per-request codec failure/stall plans, dials, closes, resets, gate denials, delayed/omitted responses, virtual time around the request timeout; exactly-once over the event history",
+BUILT["C45"] = ("E2", "exploration", "deterministic simulation: 2..3 real Swarms with #[derive(NetworkBehaviour)]{request_response, gate}; seeded requests with per-request codec failure/stall plans, dials, closes, resets, substreams reset at open, gate denials, delayed/omitted responses, virtual time around the request timeout; exactly-once over the event history",
   "every OutboundRequestId has exactly one Response/OutboundFailure, every delivered inbound request exactly one ResponseSent/InboundFailure after all timers expired; ids unique; responses match their request",
   "both sides run the real behaviour and handler; the codec is the scripted part", "5/C45")
 BUILT["C46"] = ("E2", "exploration", "deterministic simulation: real identify::Behaviour in a real Swarm; scripted peers answer identify requests and send pushes with honest, mismatched-key, foreign-record, tampered-record and foreign-/p2p messages; every Received event is attributed to its message by a serial",
   "reported key derives the connection's peer id; no listen address ending in a foreign /p2p; record addresses only from a valid record signed by the sender; mismatching messages never reported; attribution-independent: every reported signed record belongs to the connection's peer and contains the reported record-range addresses",
   E2P_NOTE, "5/C46")
-BUILT["C50"] = ("E2", "exploration", "deterministic simulation: real AutoNAT v1 server in a real Swarm; scripted clients send dial requests with crafted address lists; oracle over the addresses the simulated transport is asked to dial and over the probe events",
+BUILT["C50"] = ("E2", "exploration", "deterministic simulation: real AutoNAT v1 server in a real Swarm; scripted clients send dial requests with crafted address lists, the server application dials requesters on its own; oracle over the addresses the simulated transport is asked to dial and over the probe events",
   "throttle limits 1..3 per peer / 1..4 global, periods 10..70 s; honest, spoofed, multi-IP, DNS, relay and foreign-/p2p addresses; dial-back addresses carry only the observed IP, no relay hop, end in the requester's id; one probe per peer; throttling windows",
   E2P_NOTE, "5/C50")
 BUILT["C51"] = ("E2", "exploration", "deterministic simulation: real rendezvous server in a real Swarm; scripted clients register (signed records with generation numbers), unregister, discover with cookies; virtual-clock expiry; reference map folded from the answers",
